@@ -295,6 +295,24 @@ fn check_state(ex: &Exec, fails: &mut Vec<(String, String, String)>) {
                 fails.push(("C05".into(), kind.into(), format!("model {} {} got {:?} expected {:?}", mi, p, got, exp)));
             }
         }
+        // hook H1 (only in the hook build): EVERY key of the reverse map, also keys nobody would ask for
+        #[cfg(autosar_data_verif)]
+        {
+            for (key, list) in m.verif_reference_origin_keys() {
+                let live: Vec<usize> = list.iter().filter_map(|w| w.upgrade()).map(|e| ex.hidx.get(&e).copied().unwrap_or(usize::MAX)).collect();
+                if !expected.contains_key(&key) && !live.is_empty() {
+                    fails.push(("C05".into(), "stale-referrer-key".into(), format!("model {} {} lists {:?}", mi, key, live)));
+                }
+                if list.is_empty() {
+                    fails.push(("C05".into(), "empty-referrer-list-kept".into(), format!("model {} {}", mi, key)));
+                }
+            }
+            for (key, w) in m.verif_identifiables_raw() {
+                if w.upgrade().is_none() {
+                    fails.push(("C04".into(), "dead-index-entry".into(), format!("model {} {}", mi, key)));
+                }
+            }
+        }
         let broken: HashSet<Element> = m.check_references().iter().filter_map(|w| w.upgrade()).collect();
         for r in &all_refs {
             let t = match r.character_data() {
